@@ -103,7 +103,26 @@ def read_init_lists(repo):
         raise ValueError("Initialize(initialDOMHeapAllocSize,...) no longer has the modelled shape")
     # does Terminate restore the DOM heap parameters?  (it does not at the pinned commit: finding C18-DOMHEAP-STICKY)
     dom_reset = "initializeDOMHeap" in tb or "terminateDOMHeap" in tb
-    return dict(inits=inits, terms=terms, created=created, zeroed=zeroed, deleted=deleted, dom_reset=dom_reset)
+    # strings the message loader keeps: every XMLMsgLoader::setX(<argument>) of Initialize needs XMLMsgLoader::setX(0) in Terminate
+    msg_set = []
+    for m in re.finditer(r"XMLMsgLoader::(set\w+)\s*\(\s*(\w+)\s*\)", ib):
+        if m.group(2) != "0" and m.group(1) not in msg_set:
+            msg_set.append(m.group(1))
+    msg_reset = []
+    for m in re.finditer(r"XMLMsgLoader::(set\w+)\s*\(\s*0\s*\)", tb):
+        if m.group(1) not in msg_reset:
+            msg_reset.append(m.group(1))
+    if not msg_set:
+        raise ValueError("Initialize no longer sets the message loader's locale / nlsHome the way the model assumes")
+    # the setters themselves: release through the current global manager, replicate with it
+    ml = strip_comments(open(os.path.join(repo, "src/xercesc/util/XMLMsgLoader.cpp")).read())
+    for fn, field in (("setLocale", "fLocale"), ("setNLSHome", "fPath")):
+        b = body_of(ml, r"void\s+XMLMsgLoader::%s\s*\(" % fn)
+        if not (re.search(r"if\s*\(\s*%s\s*\)\s*\{\s*XMLPlatformUtils::fgMemoryManager->deallocate\(\s*%s\s*\)" % (field, field), b)
+                and re.search(r"%s\s*=\s*XMLString::replicate\(\s*\w+\s*,\s*XMLPlatformUtils::fgMemoryManager\s*\)" % field, b)):
+            raise ValueError("XMLMsgLoader::%s no longer has the modelled shape" % fn)
+    return dict(inits=inits, terms=terms, created=created, zeroed=zeroed, deleted=deleted, dom_reset=dom_reset,
+                msg_set=msg_set, msg_reset=msg_reset)
 
 
 def coq_strlist(l):
@@ -135,8 +154,12 @@ def generate(repo, gendir):
           "Definition globals_zeroed : list string := %s.\n"
           "(** does Terminate restore the DOM heap parameters set by Initialize(initial,max,maxSub,...) ? *)\n"
           "Definition terminate_resets_dom_heap : bool := %s.\n"
+          "(** XMLMsgLoader::setX(argument) calls of Initialize (strings replicated with the global manager) *)\n"
+          "Definition msgloader_set : list string := %s.\n"
+          "(** XMLMsgLoader::setX(0) calls of Terminate (strings released) *)\n"
+          "Definition msgloader_reset : list string := %s.\n"
           % (coq_strlist(il["inits"]), coq_strlist(il["terms"]), coq_strlist(il["created"]), coq_strlist(il["deleted"]),
-             coq_strlist(il["zeroed"]), "true" if il["dom_reset"] else "false"))
+             coq_strlist(il["zeroed"]), "true" if il["dom_reset"] else "false", coq_strlist(il["msg_set"]), coq_strlist(il["msg_reset"])))
     V.write_if_changed(os.path.join(gendir, "GenC18Init.v"), v2)
     return dict(heap=heap, init=il)
 
